@@ -116,6 +116,9 @@ OTHER = [
  ("C15", "K-exception-in-flight-residue", "fixed", "fa214db",
   "the VM-wide exception-in-flight flag survived a run that ended with an uncaught exception; the next snippet's try/finally then rethrew a bogus value",
   {"ir": {"session": [["snip", [["tryfin", 1, "s1"]]], ["snip", [["tryfin", 2, "s2"]]]], "sites": 2, "mod_sites": {}}, "faults": {"s1": {"1": "ValueError"}}}),
+ ("C15", "K-range-eviction-depends-on-when-the-clock-is-read", "fixed", "d2598ac",
+  "the range cache chose the entry to evict by comparing elapsed() of two entries - two clock readings taken at different moments; a delay between them longer than the stamps are apart made the newest entry look oldest, so a range cached a moment ago (right after a reset with a full cache) stopped being == to an equal literal. Timing-dependent: seen once in ~60 quick runs under load (seed 3, release build), not reproducible by replay; the pinned session is the one it happened in",
+  {"ir": {"session": [["snip", [["manyranges", 11]]], ["reset"], ["snip", [["setrange", 1], ["cmprange", 1, 12], ["cmprange", 1, 13]]]], "sites": 0, "mod_sites": {}}, "faults": {}}),
 ]
 
 
